@@ -292,7 +292,7 @@ pub fn c05(cx: &Ctx, col: &mut Collector) {
     for e in cx.entries() {
         let doc = &cx.docs[&e.doc];
         let m = doc.msg(&e.fq);
-        let sp = Space { doc, thorough: cx.thorough, pairs: cx.thorough };
+        let sp = Space { doc, thorough: cx.thorough, pairs: cx.thorough, huge: true };
         for v in sp.values(m, cx.depth()) {
             if !col.next_case(&format!("{}:{}", e.doc, e.ty)) {
                 continue;
@@ -412,7 +412,7 @@ pub fn c06(cx: &Ctx, col: &mut Collector) {
     for e in cx.entries() {
         let doc = &cx.docs[&e.doc];
         let m = doc.msg(&e.fq);
-        let sp = Space { doc, thorough: cx.thorough, pairs: cx.thorough };
+        let sp = Space { doc, thorough: cx.thorough, pairs: cx.thorough, huge: false };
         for v in sp.values(m, cx.depth()) {
             if !col.next_case(&format!("{}:{}", e.doc, e.ty)) {
                 continue;
@@ -626,7 +626,7 @@ pub fn c18(cx: &Ctx, col: &mut Collector) {
     for e in cx.entries() {
         let doc = &cx.docs[&e.doc];
         let m = doc.msg(&e.fq);
-        let sp = Space { doc, thorough: cx.thorough, pairs: false };
+        let sp = Space { doc, thorough: cx.thorough, pairs: false, huge: false };
         let vals = sp.values(m, cx.depth());
         // unknown fields: every value of the space
         for v in &vals {
@@ -864,7 +864,7 @@ pub fn faults(cx: &Ctx, col: &mut Collector, prop: &str) {
     for e in cx.entries() {
         let doc = &cx.docs[&e.doc];
         let m = doc.msg(&e.fq);
-        let sp = Space { doc, thorough: cx.thorough, pairs: false };
+        let sp = Space { doc, thorough: cx.thorough, pairs: false, huge: false };
         let vals = sp.values(m, cx.depth());
         // faults of valid encodings: rows and a spread of single-field values
         let picked: Vec<&PMsg> = vals.iter().enumerate().filter(|(i, v)| v.0.len() > 1 || cx.thorough || i % 5 == 0).map(|(_, v)| v).collect();
@@ -1134,7 +1134,7 @@ fn nesting(cx: &Ctx, col: &mut Collector, fc: &FaultCx) {
             if rname == "unknown-group" {
                 continue;
             }
-            let sp = Space { doc, thorough: false, pairs: false };
+            let sp = Space { doc, thorough: false, pairs: false, huge: false };
             let mut seen_kinds: Vec<String> = vec![];
             let mut bottoms: Vec<(String, Vec<u8>)> = vec![];
             for v in sp.values(m, 0) {
